@@ -257,8 +257,9 @@ func (p *Prog) FieldIndex(pkg, typ, field string) int {
 	if !ok {
 		fatalf("anchor type %s.%s is not a struct", pkg, typ)
 	}
+	nn := p.Named(pkg, typ)
 	for i := 0; i < st.NumFields(); i++ {
-		if st.Field(i).Name() == field {
+		if st.Field(i).Name() == field || fieldNameOf(nn, st, i) == field {
 			return i
 		}
 	}
@@ -373,4 +374,76 @@ func (p *Prog) LibFuncs(pkgs ...string) []*ssa.Function {
 		out = append(out, f)
 	}
 	return out
+}
+
+// structFieldLines renders "T.field": "type" for every field of every named struct type declared in library packages.
+func (p *Prog) structFieldLines() []string {
+	var out []string
+	seen := map[string]bool{}
+	for _, pkg := range p.SSA.AllPackages() {
+		if pkg.Pkg == nil || !isRepoPath(pkg.Pkg.Path()) || isFixturePkg(pkg.Pkg.Path()) {
+			continue
+		}
+		sc := pkg.Pkg.Scope()
+		for _, name := range sc.Names() {
+			tn, ok := sc.Lookup(name).(*types.TypeName)
+			if !ok {
+				continue
+			}
+			if strings.HasSuffix(p.Fset.Position(tn.Pos()).Filename, "_test.go") {
+				continue
+			}
+			named, ok := tn.Type().(*types.Named)
+			if !ok {
+				continue
+			}
+			st, ok := named.Underlying().(*types.Struct)
+			if !ok {
+				continue
+			}
+			for i := 0; i < st.NumFields(); i++ {
+				k := typeFullName(named) + "." + st.Field(i).Name()
+				if seen[k] {
+					continue
+				}
+				seen[k] = true
+				out = append(out, fmt.Sprintf("\t%q: %q,", k, typeStr(st.Field(i).Type())))
+			}
+		}
+	}
+	return out
+}
+
+// fieldNameOf returns the name under which the rules know field #idx of struct type n: its own name, or — when the
+// field is unknown to the baseline and exactly one baseline field of the same type has disappeared from the struct —
+// that baseline field's name (an unexported field was renamed).
+func fieldNameOf(n *types.Named, st *types.Struct, idx int) string {
+	name := st.Field(idx).Name()
+	if n == nil || len(fieldInventory) == 0 {
+		return name
+	}
+	tn := typeFullName(n)
+	if _, known := fieldInventory[tn+"."+name]; known {
+		return name
+	}
+	ft := typeStr(st.Field(idx).Type())
+	// current fields unknown to the baseline with this type
+	cur := 0
+	have := map[string]bool{}
+	for i := 0; i < st.NumFields(); i++ {
+		have[st.Field(i).Name()] = true
+		if _, known := fieldInventory[tn+"."+st.Field(i).Name()]; !known && typeStr(st.Field(i).Type()) == ft {
+			cur++
+		}
+	}
+	var gone []string
+	for k, t := range fieldInventory {
+		if strings.HasPrefix(k, tn+".") && t == ft && !have[strings.TrimPrefix(k, tn+".")] && !strings.Contains(strings.TrimPrefix(k, tn+"."), ".") {
+			gone = append(gone, strings.TrimPrefix(k, tn+"."))
+		}
+	}
+	if cur == 1 && len(gone) == 1 {
+		return gone[0]
+	}
+	return name
 }
